@@ -56,11 +56,12 @@ theorem c15_generated_set_works (ca : Nat) :
   rw [c15_policy]; simp [chainsTo, nameOf]
 
 /-- What the bundled generator makes (regenerated from `tools/src/commands/gen_certs`): entity certificates carry the
-    name the client asks for, the usages of their roles, are signed by the generated CA, which is a CA; the validity is
-    five days either side of now, or the library's 1975–4096 with `--no-expiry`. -/
+    name the client asks for, the usages of their roles, are signed by the generated CA, which is a CA; with
+    `--no-expiry` the library's 1975–4096 applies; otherwise the validity reaches the same span (at most ten years,
+    whatever number of days the generator is set to) either side of now. -/
 theorem generator_facts : genEntitySan = serverName ∧ genServerEku = .serverAuth ∧ genClientEku = .clientAuth ∧
     genCaIsCa = true ∧ genEntityIsCa = false ∧ genEntitySignedByCa = true ∧ genValiditySymmetric = true ∧
-    genNoExpirySkipsValidity = true ∧ genSecondsInDay = 86400 ∧ genCaValidityDays = 5 ∧ genEntityValidityDays = 5 := by
+    genNoExpirySkipsValidity = true ∧ span genCaValidityDays ≤ 315532800 ∧ span genEntityValidityDays ≤ 315532800 := by
   decide
 
 /-- "The certificate set produced by the bundled generator satisfies both directions for localhost": for either
@@ -72,14 +73,16 @@ theorem c15_generator_set_works_both_ways (ca : Nat) (noExpiry : Bool) (now : In
     handshake ca ca
       (presented now genClientEku (genCa ca noExpiry now) (genEntity ca genClientEku noExpiry now))
       (presented now genServerEku (genCa ca noExpiry now) (genEntity ca genServerEku noExpiry now)) = true := by
-  obtain ⟨hsan, hse, hce, hca, hen, hsig, hsym, hskip, hsec, hcd, hed⟩ := generator_facts
+  obtain ⟨hsan, hse, hce, hca, hen, hsig, hsym, hskip, hcs, hes⟩ := generator_facts
   have hname : serverName = "localhost" := config_is_mutual.2.2.2.2
   rw [c15_policy]
-  have hA : (432000 ≤ now ∧ now - 432000 ≤ now) ∧ now ≤ now + 432000 := by omega
+  have hA1 : (0 ≤ now - (span genCaValidityDays : Int) ∧ now - (span genCaValidityDays : Int) ≤ now) ∧ now ≤ now + (span genCaValidityDays : Int) := by omega
+  have hA2 : (0 ≤ now - (span genEntityValidityDays : Int) ∧ now - (span genEntityValidityDays : Int) ≤ now) ∧ now ≤ now + (span genEntityValidityDays : Int) := by omega
   have hB : (157766400 ≤ now) ∧ now ≤ 67090118400 := by omega
+  have hC : (span genCaValidityDays : Int) ≤ now ∧ (span genEntityValidityDays : Int) ≤ now := by omega
   cases noExpiry <;>
-    simp [presented, validAt, genCa, genEntity, validity, hca, hen, hsig, hsym, hskip, hsec, hcd, hed, hse, hce,
-      chainsTo, nameOf, hsan, hname, rcgenNotBefore, rcgenNotAfter, hA, hB]
+    simp [presented, validAt, genCa, genEntity, validity, hca, hen, hsig, hsym, hskip, hse, hce,
+      chainsTo, nameOf, hsan, hname, rcgenNotBefore, rcgenNotAfter, hA1, hA2, hB, hC]
 
 /-- The defect this guards against, for the record: a validity of a hundred years either side of 2026 starts in 1926,
     before anything webpki can represent: such a certificate is unusable in both directions. -/
